@@ -1,4 +1,5 @@
 import Op2Proofs.Lzh.Drain
+import Op2Proofs.Lzh.Bits
 import Op2Model.Gen.Constants
 import Op2Model.Gen.Layout
 import Op2Model.Gen.Formulas
@@ -70,6 +71,25 @@ theorem C04_gen_offsetModifiers : ∀ o : Nat, o < 256 →
             simp; omega
 
 attribute [local irreducible] Spec.run TA.init
+
+/-! ## the bit reader -/
+
+/-- **`BitStreamReader` with its one-byte shift register is the pure bit stream** (MSB first, zero past the end, the
+    cursor stops at the end for single bits and overshoots by at most 7 for `ReadNext8Bits`): every sequence of
+    `ReadNextBit` / `ReadNext8Bits` calls returns the same values and cursors -/
+theorem C04_bit_reader_refines (data : Array UInt8) (ops : List BitOp) :
+    runC data { pos := 0, buf := 0 } ops = runA data 0 ops :=
+  run_refines data ops _ (cinv_init data)
+
+/-- the pure stream is what the property describes: bit `p` is bit `7 - p % 8` of byte `p / 8`, and 0 past the end -/
+theorem C04_bit_stream (data : Array UInt8) (p : Nat) :
+    bitAt data p = (byteAt data (p / 8) / 2 ^ (7 - p % 8)) % 2 ∧ (bitSize data ≤ p → bitAt data p = 0) := by
+  refine ⟨bitAt_eq data p, ?_⟩
+  intro h
+  rw [bitAt_eq]
+  have : data.size ≤ p / 8 := by unfold bitSize at h; omega
+  have : byteAt data (p / 8) = 0 := by unfold byteAt; simp [Array.getD_eq_getD_getElem?, this]
+  rw [this]; simp
 
 /-! ## termination -/
 
@@ -151,6 +171,38 @@ theorem C04_capacity (data : Array UInt8) (calls : List Call) :
   have := congrArg List.length h
   rw [List.length_take] at this
   omega
+
+/-- on every tree the decoder can reach, no tree query is ever refused: the walk stays on nodes, ends on a leaf and
+    yields a symbol `< 314` — the only error a code can end in is the refusal of the update -/
+theorem C04_no_query_error (data : Array UInt8) (t : TA) (k : TreeOk t) (p : Nat) : decodeSym data t p ≠ .badQuery :=
+  decodeSym_not_badQuery k data p
+
+/-- **the refusal happens exactly at the capacity limit**: a code is refused iff the root counter is full
+    (65535 = 314 + 65221 updates, `C15_array_reachable`), and then nothing is appended -/
+theorem C04_refused_iff_counter_full (data : Array UInt8) (t : TA) (k : TreeOk t) (p : Nat) (hist : List UInt8) :
+    Spec.step data t p hist = .cap ↔ t.cnt.getD t.root 0 ≥ TF.maxCount :=
+  step_cap_iff_full k data p hist
+
+/-- if the reference decoder ends at capacity, it stopped in a state whose tree is well formed and full -/
+theorem C04_capacity_point (data : Array UInt8) : ∀ fuel (t : TA) (p : Nat) (hist : List UInt8), TreeOk t →
+    (Spec.run data fuel t p hist).2 = .capacity →
+    ∃ t' p', TreeOk t' ∧ t'.cnt.getD t'.root 0 ≥ TF.maxCount ∧
+      Spec.step data t' p' (Spec.run data fuel t p hist).1 = .cap := by
+  intro fuel
+  induction fuel with
+  | zero => intro t p hist _ h; simp [Spec.run] at h
+  | succ f ih =>
+    intro t p hist k h
+    simp only [Spec.run] at h ⊢
+    cases hs : Spec.step data t p hist with
+    | cap =>
+      simp only [hs]
+      exact ⟨t, p, k, (step_cap_iff_full k data p hist).mp hs, hs⟩
+    | last hist' => simp [hs] at h
+    | next t' p' hist' =>
+      simp only [hs] at h ⊢
+      obtain ⟨k', _, _, _⟩ := step_next k hs
+      exact ih t' p' hist' k' h
 
 /-- non-vacuity: the initial object satisfies the invariant all of the above rest on -/
 example (data : Array UInt8) : Inv data (St.init data) [] 0 (Spec.run data (bitSize data + 2) (TA.init symbolCount) 0 []) :=
